@@ -140,8 +140,8 @@ func valuationString(m map[string]string) string {
 
 type strPart struct {
 	parent map[string]string
-	konst  map[string]string        // root -> constant value held by the class ("" key absent = none)
-	hasK   map[string]bool          // root has a constant
+	konst  map[string]string          // root -> constant value held by the class ("" key absent = none)
+	hasK   map[string]bool            // root has a constant
 	diseq  map[string]map[string]bool // root -> roots known different
 }
 
